@@ -222,6 +222,13 @@ class Unpicklable:
         return self
 
 
+class UnpicklableNoRepr(Unpicklable):
+    """cannot be serialised and cannot even be shown (a half-built object, a proxy whose peer is gone ...)"""
+
+    def __repr__(self):
+        raise RuntimeError('this value cannot be shown either')
+
+
 class Counter:
     def __init__(self, v=0):
         self.value = v
@@ -256,6 +263,8 @@ def task(ctl, jid, kind, catch=False):
             return ('caught', jid)
         if kind == 3:
             return Unpicklable()
+        if kind == 7:
+            return UnpicklableNoRepr()
         return ('ok', jid)
     finally:
         ctl.in_task = False
